@@ -239,6 +239,27 @@ def suite_split_concat(ctx):
                         rep = ctx.M.ask("stack", 2, *_g(top), *_g(low))
                         if int(rep.split(" | ")[0]) != len(gap.defs):
                             ctx.disagree("stack.gap", inp, len(gap.defs), rep)
+                    # histories: ask for the coordinates, grow the stack, ask again (in every order of the accessor variants)
+                    hist = StackedAreaDefinition(top)
+                    seq = []
+                    members = [top]
+                    for part in (low, mid):
+                        which = ctx.rng.choice(["plain", "plain", "chunks", "none"])
+                        if which == "plain":
+                            hist.get_lonlats()
+                        elif which == "chunks":
+                            hist.get_lonlats(chunks=2)
+                        hist.append(part)
+                        members.append(part)
+                        seq.append(which)
+                        lo, la = (np.asarray(v) for v in hist.get_lonlats())
+                        want_lo = np.vstack([np.asarray(m_.get_lonlats()[0]) for m_ in hist.defs])
+                        want_la = np.vstack([np.asarray(m_.get_lonlats()[1]) for m_ in hist.defs])
+                        rows = sum(m_.height for m_ in members)
+                        if lo.shape != (rows, area.width) or not (np.array_equal(lo, want_lo, equal_nan=True) and np.array_equal(la, want_la, equal_nan=True)):
+                            ctx.fail("geometry.StackedAreaDefinition.get_lonlats", f"after get_lonlats ({seq}) and append, the stack's lon/lats have shape {lo.shape} / values "
+                                     f"that are not the row-wise concatenation of its {len(hist.defs)} member(s) ({rows} rows)", {**inp, "history": list(seq)}, size=H)
+                            break
                 ctx.case("stack3", (tuple(inp["extent"]), tuple(inp["shape"]), k), nontrivial=True)
 
 
@@ -324,6 +345,26 @@ def suite_swath(ctx):
             for nm, obj in (("concatenate", c), ("append", a)):
                 if not (np.array_equal(obj.lons, lons) and np.array_equal(obj.lats, lats) and tuple(obj.shape) == (H, W)):
                     ctx.fail(f"CoordinateDefinition.{nm}", "split then concatenate does not give back the coordinate arrays", {**inp, "k": k}, size=H * W)
+        if kind in ("dask", "xarray") and H >= 1:
+            # granules held as dask / labelled xarray arrays: concatenation is positional, whatever the labels say
+            k = r.randrange(0, H + 1)
+
+            def wrap(arr, lab):
+                if kind == "dask":
+                    return da.from_array(arr, chunks=2)
+                return xr.DataArray(arr, dims=("y", "x"), coords={"x": lab})
+            lab_a = np.arange(W, dtype=np.float32) * 0.1
+            lab_b = r.choice([np.arange(W, dtype=np.float64) * 0.1, np.arange(W, dtype=np.float64) + 3.0, np.arange(W, dtype=np.float32) * 0.1])
+            a = SwathDefinition(wrap(lons[:k], lab_a), wrap(lats[:k], lab_a))
+            b = SwathDefinition(wrap(lons[k:], lab_b), wrap(lats[k:], lab_b))
+            try:
+                c = a.concatenate(b)
+                cl, ca = np.asarray(c.lons), np.asarray(c.lats)
+                if cl.shape != (H, W) or not (np.array_equal(cl, lons) and np.array_equal(ca, lats)):
+                    ctx.fail("CoordinateDefinition.concatenate", f"{kind} granules: concatenation has shape {cl.shape} / values that are not the row-wise concatenation "
+                             f"({(H, W)}) of the two coordinate arrays", {**inp, "k": k, "labels_b": [float(v) for v in lab_b]}, size=H * W)
+            except Exception as e:  # noqa
+                ctx.fail("CoordinateDefinition.concatenate", f"{kind} granules: raised {type(e).__name__}: {e}", {**inp, "k": k}, size=H * W)
         ctx.case("swath", (H, W, kind, str(inp["slices"])), nontrivial=sl.size > 0, sample={"input": inp})
 
 
